@@ -118,7 +118,8 @@ struct GroupVT {
 
 enum : unsigned {
   CAP_NORMALIZE = 1, CAP_ROTATION = 2, CAP_SMALLADJ = 4, CAP_ASSO3 = 8, CAP_BUNDLE = 16, CAP_RN = 32,
-  CAP_QUAT = 64
+  CAP_QUAT = 64,
+  CAP_CROSS = 128   // position mixes products of two translation-like quantities (SGal3: velocity x time)
 };
 
 int n_groups();
